@@ -591,32 +591,41 @@ class FileCache(CacheMixin):
             if metadata is not None:
                 yield metadata["query"]
 
+    def _write_file(self, path, b):
+        """Write a file via a temporary file and a rename,
+        so that a crash leaves either the previous content or the complete new one."""
+        tmp = path + ".tmp"
+        with open(tmp, "wb") as f:
+            f.write(b)
+        os.replace(tmp, path)
+
     def store(self, state):
         if state.is_error:
             return None
         state.metadata["status"] = "ready"
 
+        t = state_types_registry().get(state.type_identifier)
+        try:
+            b, mime = t.as_bytes(state.data)
+        except NotImplementedError:
+            return False
         # remove the previous entry: its data file is named after the type of the previous value
         self.remove(state.query)
-        if not self.store_metadata(state.metadata):
-            return False
-
-        t = state_types_registry().get(state.type_identifier)
         path = self.to_path(
             state.query, prefix="data_", extension=t.default_extension()
         )
-        with open(path, "wb") as f:
-            try:
-                b, mime = t.as_bytes(state.data)
-                f.write(self.encode(b))
-            except NotImplementedError:
-                return False
+        # the data goes first; the entry becomes visible with the (ready) metadata
+        self._write_file(path, self.encode(b))
+        if not self.store_metadata(state.metadata):
+            return False
         return True
 
     def store_metadata(self, metadata):
         try:
-            with open(self.to_path(metadata["query"]), "wb") as f:
-                f.write(self.encode_metadata(json.dumps(metadata)))
+            self._write_file(
+                self.to_path(metadata["query"]),
+                self.encode_metadata(json.dumps(metadata)),
+            )
         except:
             logging.exception(f"Cache writing error: {metadata['query']}")
             return False
